@@ -5,6 +5,8 @@ ProcessLine, ThreadLine, SourceSink, QueueSource/QueueSink, Slice, Pickler/Unpic
 Foreach, Stopper, EventSetter, UniqueKey) run on the simulated process / thread / queue /
 event / pipe layer under a seeded scheduler.
 """
+import os
+
 from checks.common import VERIF, quiet_context, vio, weighted, ListSinkH
 from sim.world import make_sim, run_sim
 from sim.sched import cur_sim
@@ -244,6 +246,8 @@ def _instrument():
            L.ProcessLine._get_result, L.ThreadLine.start, L.ThreadLine.run, M.MyProcessLine.start, M.UniqueKey.__init__]
     if hasattr(L.ProcessLine, "_result_ready"):
         fns.append(L.ProcessLine._result_ready)
+    import coba.pipes.sinks as SK
+    fns += [SK.DiskSink.write, SK.DiskSink.__enter__, SK.DiskSink.__exit__]      # (the parent's log writer thread can be pre-empted while its file is open)
     return instrument(fns)
 
 
@@ -348,6 +352,8 @@ class C08:
             "knobs": {"feeder_delay": rng.random() < 0.5, "pipe_cap": weighted(rng, [(None, 4), (1, 1), (3, 1)]),
                       "p_stay": weighted(rng, [(0.0, 2), (0.5, 2), (0.9, 1)]),
                       "slow_main": rng.random() < 0.25, "log_lines": coba_mp and rng.random() < 0.7,
+                      # the parent's logger writes to a file (a DiskSink, as a ~/.coba configuration can ask for) instead of to a list
+                      "disk_log": coba_mp and rng.random() < 0.3,
                       # bytecode-level pre-emption of the parent's threads (callbacks, loader, consumer) at planned opcode counts
                       "opcode_plan": sorted(rng.randrange(1, 700) for _ in range(1 + rng.randrange(4))) if rng.random() < 0.2 else None,
                       # ... and at the k-th bytecode of the n-th invocation of a chosen function (hits short critical sections far more often)
@@ -382,6 +388,14 @@ class C08:
             sim.slow_bias = 0.7
         log_sink = ListSinkH()
         quiet_context(log_sink)
+        log_dir = None
+        if kn.get("disk_log"):
+            import tempfile
+            from coba.context import CobaContext, BasicLogger
+            from coba.pipes import DiskSink
+            log_dir = tempfile.mkdtemp(prefix="c08log_", dir="/dev/shm" if os.path.isdir("/dev/shm") else None)
+            CobaContext.logger = BasicLogger(DiskSink(os.path.join(log_dir, "log.txt")))
+            sim.count("reach.parent_logger_writes_to_a_file")
         fail_after = {int(k): v for k, v in cfg["fail_after"].items()}
         f = HFilter(cfg["outs"], set(cfg["plain"]), set(cfg["fail"]), fail_after, kn["log_lines"], cfg.get("falsy", ()), cfg.get("exc", "Exception"))
         f.none_out = set(cfg.get("none_out", ()))
@@ -449,7 +463,12 @@ class C08:
             except Exception as e:
                 obs["exc"] = e
 
-        outcome = run_sim(sim, main)
+        try:
+            outcome = run_sim(sim, main)
+        finally:
+            if log_dir:
+                import shutil
+                shutil.rmtree(log_dir, ignore_errors=True)
         res = {"digest": sim.digest(), "trace": sim.trace, "decisions": sim.n_decisions, "switches": sim.n_switches,
                "sim_s": sim.now, "counters": dict(sim.counters), "states": list(sim.state_sigs)}
         started = sim.counters.get("process_started", 0)
@@ -583,7 +602,7 @@ class C08:
             for i in range(len(pl)):
                 if len(pl) > 1:
                     c = copy.deepcopy(cfg); c["knobs"]["opcode_plan"] = pl[:i] + pl[i + 1:]; yield c
-        for k, v in (("feeder_delay", False), ("pipe_cap", None), ("slow_main", False), ("log_lines", False), ("p_stay", 0.9)):
+        for k, v in (("feeder_delay", False), ("pipe_cap", None), ("slow_main", False), ("log_lines", False), ("disk_log", False), ("p_stay", 0.9)):
             if cfg["knobs"][k] != v:
                 c = copy.deepcopy(cfg); c["knobs"][k] = v; yield c
         for i, o in enumerate(cfg["outs"]):
